@@ -58,6 +58,8 @@ FLAT_TASK_SHAPES = [
     (2, 2, (True,), 'thorough'),
     (3, 2, (True, False), 'thorough'),
     (3, 2, (True, True), 'thorough'),
+    # the chunked arm on the smallest input (one element, chunk size 2): cheap enough for the quick tier (C11: the pull sizes)
+    (1, 2, (True,), 'quick'),
 ]
 
 # two-worker shapes for the glue harnesses: (n, c, owner table, tier)
@@ -675,7 +677,7 @@ def gen_kernel_module(kernel):
             if kernel in ('filtermap_fil_col', 'flatmap_fil_col') or (kernel == 'filtermap_fil_col_x' and c != 1):
                 t2 = 'thorough'
             # flat_map reduce over buffered chunks (chunk.flat_map(..).filter(..).reduce(..)): > 12 min per harness
-            if kernel in ('flatmap_fil_red', 'flatmap_fil_find', 'flatmap_fil_cnt') and c != 1:
+            if kernel in ('flatmap_fil_red', 'flatmap_fil_find', 'flatmap_fil_cnt') and c != 1 and n > 1:
                 t2 = 'thorough'
             HARNESSES[name] = dict(kernel=kernel, family='task_' + fam, props=FAM_PROPS[fam], tier=t2,
                                    bounded=True, path='core::%s::vk::%s' % (kernel, name),
@@ -925,7 +927,9 @@ QUICK_API_SEQ = {('map', 'max_by_key'), ('fil', 'max_by'), ('flat', 'reduce'), (
                  # closure-call multiset and call sequence against the std chain)
                  ('map_map', 'count'), ('fmap_map', 'count'), ('fmap_fil_map', 'count'), ('map_fmap', 'count'), ('fil_fmap', 'count'), ('flat_map', 'count'),
                  ('map_flat', 'count'), ('map_fil_fmap', 'count'), ('fmap_fmap', 'count'), ('fmap_fil_fmap', 'count'), ('flat_flat', 'count'),
-                 ('empty', 'collect')}
+                 ('empty', 'collect'),
+                 # every provided reduce-family method of src/par_iter.rs at least once in sequential mode
+                 ('fil', 'min_by'), ('map', 'min')}
 # composition sites: in sequential mode every composed (three-step) chain is observed through count (number of survivors, closure-call
 # multiset and call sequence) and through reduce with a non-commutative operator (values and their order)
 QUICK_API_SEQ |= {(c, t) for c in CHAINS if c not in ('empty', 'map', 'fil', 'map_fil', 'fmap', 'fmap_fil', 'flat', 'flat_fil') for t in ('count', 'reduce')}
@@ -1199,6 +1203,31 @@ fn k_lazy_src_iter_par() {
     kani::cover!(a > 1 && b > 1);
 }
 """)
+    out.append("""
+/// C12 (defaults): every way of building a computation from a source starts with Auto/Auto.
+#[kani::proof]
+#[kani::unwind(4)]
+fn k_lazy_src_defaults() {
+    use crate::{AsPar, IntoPar, IterIntoPar};
+    let d = Params { num_threads: NumThreads::Auto, chunk_size: ChunkSize::Auto };
+    let v: Vec<u8> = Vec::new();
+    assert!(v.par().params() == d, "C12: Vec::par() does not start with the default parameters Auto/Auto");
+    let s: &[u8] = &v;
+    assert!(s.par().params() == d, "C12: slice par() does not start with the default parameters Auto/Auto");
+    assert!(s.into_par().params() == d, "C12: slice into_par() does not start with the default parameters Auto/Auto");
+    let lo: usize = kani::any();
+    kani::assume(lo < 100);
+    assert!((lo..lo + 2).into_par().params() == d, "C12: Range::into_par() does not start with the default parameters Auto/Auto");
+    let w: Vec<u8> = Vec::new();
+    assert!(w.into_par().params() == d, "C12: Vec::into_par() does not start with the default parameters Auto/Auto");
+    let u: Vec<u8> = Vec::new();
+    assert!(u.into_iter().filter(|_| true).par().params() == d, "C12: Iterator::par() does not start with the default parameters Auto/Auto");
+    kani::cover!(lo > 0);
+}
+""")
+    HARNESSES['k_lazy_src_defaults'] = dict(kernel='api', family='lazy', props=['C12'], tier='quick', bounded=False,
+                                            path='core::verif_kani::h_lazy::k_lazy_src_defaults', shape=dict(source='Vec / slice / Range / Iterator'),
+                                            covers_expected=1, bound='loop-free: sources of five kinds, params() right after construction')
     HARNESSES['k_lazy_src_iter_par'] = dict(kernel='api', family='lazy', props=['C16'], tier='quick', bounded=False,
                                             path='core::verif_kani::h_lazy::k_lazy_src_iter_par', shape=dict(source='Iterator::par()'),
                                             covers_expected=1, bound='loop-free: any parameters')
@@ -1223,6 +1252,16 @@ def generate_all():
                              path='core::verif_kani::h_src::%s' % nm, shape=dict(source=nm[6:], elements=3, workers=1),
                              covers_expected=None, covers_min=0,
                              bound='real dependency source of 3 symbolic elements, one worker via the Runner contract, terminals count / xor-reduce / first')
+    for nm in ('k_src_vecdeque_wrapped_par', 'k_src_linkedlist_par', 'k_src_binaryheap_par'):
+        HARNESSES[nm] = dict(kernel='api', family='src', props=['C01', 'C02', 'C03', 'C04'], tier='quick', bounded=True,
+                             path='core::verif_kani::h_src::%s' % nm, shape=dict(source=nm[6:], elements=3, workers=1),
+                             covers_expected=1,
+                             bound='real std collection of 3 symbolic elements (VecDeque with a wrapped buffer), real ConIterOfIter, one worker via the Runner contract, terminals count / xor-reduce / first against the collection\'s own iterator')
+    for nm in ('k_merge_real_one_vector_prefix_vec', 'k_merge_real_two_vectors_prefix_vec', 'k_merge_real_one_vector_prefix_pinned', 'k_merge_real_two_vectors_prefix_pinned'):
+        HARNESSES[nm] = dict(kernel='merge', family='merge', props=['C01', 'C06'], tier='quick', bounded=True,
+                             path='core::verif_kani::h_drop::%s' % nm, shape=dict(vectors=(1 if 'one_vector' in nm else 2), prefix=1, elements=2),
+                             covers_expected=None, covers_min=0,
+                             bound='the REAL merge function (no stub): %s worker vector(s), 2 keyed elements with symbolic values, output holding 1 previous element' % ('one' if 'one_vector' in nm else 'two'))
     for nm in ('k_dep_vec_protocol', 'k_dep_vec_skip', 'k_dep_iter_protocol', 'k_dep_iter_skip'):
         HARNESSES[nm] = dict(kernel='dependency', family='dep', props=['C01', 'C02', 'C05', 'C10', 'C11'], tier='quick', bounded=True,
                              path='core::verif_kani::h_dep::%s' % nm, shape=dict(source='real ConIterOfVec / ConIterOfIter, 3 elements, one thread'),
